@@ -16,7 +16,7 @@ import pymbolic.mapper as mapmod
 from ..core import check, short
 from ..gen import expr as G
 from ..mon.trace import HandlerTrace
-from ..mon.typedkeys import KF_TWINS, has_twins, typed
+from ..mon.typedkeys import KF_TWINS, has_twins, refkeys, typed
 from ..ref import normal, refsem
 
 RULE = ("typed random expressions (sorts int / exact rational / bool) over every node type the "
@@ -76,9 +76,10 @@ def variants(hashable=True, w=_same):
 
 def twin_finding(objs, rerun):
     """KF_TWINS iff the input holds ==-but-differently-typed composites AND the same run with
-    typed memo keys (the one change) has no discrepancy."""
+    typed memo keys (the one change) has no discrepancy AND the run with the documented ==-keys
+    re-implemented here still has one.  rerun(w) -> True if consistent with the reference."""
     try:
-        if has_twins(*objs) and rerun():
+        if has_twins(*objs) and rerun(typed) and not rerun(refkeys):
             return KF_TWINS
     except RecursionError:
         raise
@@ -114,12 +115,12 @@ def c_eval(ctx, case):
         ctx.count("variant:" + name)
         ctx.count("outcome:" + want[0])
         if not refsem.consistent(got, want, faults):
-            tfn = dict(variants(hashable, typed))[name]
             ctx.fail("C02.eval", case, f"{name}:{_sig(e, got, want)}",
                      f"variant={name} expr={e} env={_envs(env)} got={short(got)} "
                      f"want={short(want)} faults={faults}",
-                     finding=twin_finding([e], lambda: refsem.consistent(
-                         refsem.outcome(lambda: tfn(e, env), UNK), want, faults)))
+                     finding=twin_finding([e], lambda w: refsem.consistent(
+                         refsem.outcome(lambda: dict(variants(hashable, w))[name](e, env), UNK),
+                         want, faults)))
 
 
 def _sig(e, got, want):
@@ -153,8 +154,8 @@ def c_effects(ctx, case):
         if not refsem.consistent(got, want, faults):
             ctx.fail("C02.effects", case, f"{name}:value:{_sig(e, got, want)}",
                      f"expr={e} env={_envs(env)} got={short(got)} want={short(want)}",
-                     finding=twin_finding([e], lambda: refsem.consistent(
-                         refsem.outcome(lambda: typed(cls)(dict(env))(e), UNK), want, faults)))
+                     finding=twin_finding([e], lambda w: refsem.consistent(
+                         refsem.outcome(lambda: w(cls)(dict(env))(e), UNK), want, faults)))
             continue
         if len(faults) > 1:
             continue
@@ -202,8 +203,8 @@ def c_reuse(ctx, case):
             ctx.case(None)
             ctx.count("reuse:" + name)
             if not refsem.consistent(got, want, faults):
-                def rerun(upto=i, cls=cls):
-                    tm = typed(cls)(env)
+                def rerun(w, upto=i, cls=cls):
+                    tm = w(cls)(env)
                     ok = True
                     for e2 in exprs[:upto + 1]:
                         w2, f2, _ = refsem.expected(e2, env)
